@@ -215,6 +215,25 @@ func singleEdits(seedName, seed string, extraNames bool) []specEdit {
 		}); ok {
 			emit("wrap "+pt+" in an array", d)
 		}
+		// add a member that looks like a vendor extension but is not one (the pattern is ^x-, lower case)
+		if _, isObj := n.val.(map[string]any); isObj {
+			if d, ok := editAt(root, p, func(parent, key any) bool {
+				var obj map[string]any
+				switch t := parent.(type) {
+				case map[string]any:
+					obj, _ = t[key.(string)].(map[string]any)
+				case []any:
+					obj, _ = t[key.(int)].(map[string]any)
+				}
+				if obj == nil {
+					return false
+				}
+				obj["X-Foo"] = 1.0
+				return true
+			}); ok {
+				emit("add member X-Foo to "+pt, d)
+			}
+		}
 		// rename key / transplant sibling
 		if _, isKey := p[len(p)-1].(string); isKey {
 			for _, nn := range renames {
